@@ -331,8 +331,9 @@ def _replay(job, phase):
             for q in range(len(sizes)):
                 mC.st(xC[q] >= -1, xC[q] <= 1)
             accepted = None
+            as_expectation = job.get('tidx', 0) % 4 == 2      # the same product under E(): the expectation path of the compiler
             try:
-                mC.st(xC[v][i] * zC[0] <= 5)
+                mC.st(E(xC[v][i] * zC[0]) <= 5 if as_expectation else xC[v][i] * zC[0] <= 5)
                 mC.solve(display=False)
                 accepted = 'solved' if mC.solution is not None else 'formulated'
             except Exception as e:
@@ -340,8 +341,8 @@ def _replay(job, phase):
                 if not any('/rsome/' in fr.filename for fr in traceback.extract_tb(e.__traceback__)):
                     raise
             if accepted:
-                findings.append(dict(sig='C13:adaptive-times-random-accepted', prop='C13',
-                                     what='x[%d][%d] is affinely adaptive (declared %s) and x*z[0] <= 5 was %s instead of being rejected' % (v + 1, i, rec['decl'][v][i], accepted),
+                findings.append(dict(sig='C13:adaptive-times-random-accepted' + (':under-expectation' if as_expectation else ''), prop='C13',
+                                     what='x[%d][%d] is affinely adaptive (declared %s) and %s <= 5 was %s instead of being rejected' % (v + 1, i, rec['decl'][v][i], 'E(x*z[0])' if as_expectation else 'x*z[0]', accepted),
                                      hist=hist))
             else:
                 notes.append('product-rejected')
